@@ -1593,6 +1593,11 @@ func RunCursor(p *Prog, pkgpath string) *CursorResult {
 				if continuation(callee) {
 					return false
 				}
+				// a loop-free function from a token to constants (`basicTypeKind(keyword) (TypeKind, bool)`): a
+				// table written as a switch; read where it is used, the arms are arms of the reader
+				if tokenTable(callee) {
+					return false
+				}
 			}
 			return true
 		}
@@ -1747,4 +1752,39 @@ func namedKeys(m map[*types.Named]bool) []*types.Named {
 	}
 	sort.Slice(out, func(i, j int) bool { return out[i].Obj().Name() < out[j].Obj().Name() })
 	return out
+}
+
+// tokenTable: f takes one string and answers with constants only, without loops or calls (a switch over keywords).
+func tokenTable(f *ssa.Function) bool {
+	if f.Signature.Recv() != nil || len(f.Params) != 1 || len(f.Blocks) == 0 || len(f.Blocks) > 40 {
+		return false
+	}
+	if bt, ok := f.Params[0].Type().Underlying().(*types.Basic); !ok || bt.Kind() != types.String {
+		return false
+	}
+	res := f.Signature.Results()
+	if res.Len() == 0 || res.Len() == 1 && types.Identical(res.At(0).Type().Underlying(), types.Typ[types.Bool]) {
+		return false // (predicates are evaluated, not read)
+	}
+	for _, b := range f.Blocks {
+		if blockInLoop(b) {
+			return false
+		}
+		for _, in := range b.Instrs {
+			switch x := in.(type) {
+			case *ssa.Return:
+				for _, r := range x.Results {
+					if _, isK := r.(*ssa.Const); !isK {
+						if _, isPhi := r.(*ssa.Phi); !isPhi {
+							return false
+						}
+					}
+				}
+			case *ssa.BinOp, *ssa.If, *ssa.Jump, *ssa.Phi, *ssa.DebugRef:
+			default:
+				return false
+			}
+		}
+	}
+	return true
 }
